@@ -11,7 +11,7 @@ LOOKALIKES = [
     "\"quoted\"", "'single'", "\"half", "back\\slash", "tab\there", "-", "+", " ",
     "  two  spaces  ", "version=0.4.8.12", "config/names=", "ns/all=",
 ]
-DOT_LINES = [".x", "..", "...", ".hidden=1", ". x", ".OK", "..."]
+DOT_LINES = [".", ".x", "..", "...", ".hidden=1", ". x", ".OK", ".", "..."]
 EDGE_LINES = [" .", ". ", " . ", "\t.", "OK"]       # tagged edge class (DESIGN C01 L)
 
 
